@@ -227,7 +227,7 @@ def race_stream(chk, rng, stats):
         r = json.load(open(chk.replay))
         cases = [([tuple(e) if isinstance(e, list) else e for e in r["race_entries"]], r["winner_order"], r["rejected"])]
     else:
-        for _ in range(150 if chk.tier == "quick" else 3000):
+        for _ in range(150 if chk.tier == "quick" else 15000):
             cases.append(gen_race(rng))
     d = os.path.join(common.OUT, PID)
     os.makedirs(d, exist_ok=True)
@@ -368,7 +368,7 @@ def delivery_stream(chk, rng, stats, known_hit):
     combos = []
     for comb in ("all", "race", "any", "allSettled"):
         for n in (1, 2, 3):
-            for _ in range(4 if chk.tier == "quick" else 30):
+            for _ in range(4 if chk.tier == "quick" else 150):
                 outcomes = [(rng.below(3) != 0, "v%d" % (i + 1)) for i in range(n)]
                 perm = list(range(n))
                 for i in range(n - 1, 0, -1):
@@ -549,7 +549,7 @@ def run(chk):
                     continue
                 for h in hosts:
                     cases.append((list(prog), h))
-        n_rand = 800 if chk.tier == "quick" else 20000
+        n_rand = 800 if chk.tier == "quick" else 100000
         for i in range(n_rand):
             prog = gen_prog(rng, 6)
             if not sensible(prog):
